@@ -774,6 +774,18 @@ def gen_mixed_portfolio(rng, kinds=ALL_KINDS, g=None, n_assets=(2, 6), n_nodes=(
                                'start': ws, 'end': we, 'wacc': 0.})
                 assets.append({'type': 'Transport', 'name': 'camp_link%d' % q, 'nodes': [nodes[0], 'camp'] if q == 0 else ['camp', nodes[0]], 'min_cap': 0., 'max_cap': 2. * f,
                                'efficiency': pick(rng, [1., 0.9]), 'costs_const': 0.1, 'start': ws, 'end': we, 'wacc': 0.})
+    if campaign and rng.random() < 0.15 and T >= 6:
+        # a delivery point: a flexible consumer (can only take: min_cap < 0 = max_cap) fed through a link that exists for a part of the horizon only -
+        # in the other steps nothing that could deliver is attached to the node
+        pts = grid_points(g)
+        i1 = int(rng.integers(2, T - 1))
+        cut = naive_str(pts[i1])
+        if local_ok(cut, g.get('tz')):
+            pk.append('psink')
+            first = rng.random() < 0.5
+            assets.append({'type': 'SimpleContract', 'name': 'sink_take', 'nodes': ['sink'], 'price': 'psink', 'min_cap': -4. * f, 'max_cap': 0., 'extra_costs': 0., 'wacc': 0.})
+            assets.append({'type': 'Transport', 'name': 'sink_feed', 'nodes': [nodes[0], 'sink'], 'min_cap': 0., 'max_cap': 3. * f, 'efficiency': pick(rng, [1., 0.9]), 'costs_const': 0.1,
+                           'start': None if first else cut, 'end': cut if first else None, 'wacc': 0.})
     if rng.random() < 0.6:
         perm = rng.permutation(len(assets))
         assets = [assets[int(i)] for i in perm]
